@@ -130,6 +130,8 @@ pub fn set_journal(j: Option<(String, String)>) {
     *JOURNAL.lock().unwrap_or_else(|e| e.into_inner()) = j;
 }
 
+pub const JOURNAL_ROTATE: u64 = 64;
+
 pub fn journal_path(dir: &str, prop: &str, w: usize) -> String {
     format!("{}/{}-w{}.json", dir, prop, w)
 }
@@ -228,6 +230,7 @@ where
                     let journal = JOURNAL.lock().unwrap_or_else(|e| e.into_inner()).clone();
                     let mut jfile = journal.as_ref().and_then(|(d, _)| std::fs::OpenOptions::new().create(true).write(true).truncate(true).open(journal_path(d, prop_id, w)).ok());
                     let jfile = RefCell::new(jfile.take());
+                    let jcount = Cell::new(0u64);
                     if w < 64 {
                         ACTIVE[w].store(true, Ordering::Relaxed);
                     }
@@ -239,11 +242,23 @@ where
                             return Ok(());
                         }
                         if let (Some(f), Some((_, engine))) = (jfile.borrow_mut().as_mut(), journal.as_ref()) {
-                            use std::io::{Seek, Write};
-                            let body = serde_json::to_vec(&json!({"property": prop_id, "engine": engine, "case": &t, "observed": "journal entry: the process died while executing this case"})).unwrap_or_default();
-                            let _ = f.seek(std::io::SeekFrom::Start(0));
+                            use std::io::Write;
+                            // one line per case, appended; every JOURNAL_ROTATE cases the file becomes
+                            // `<file>.prev`, so the last 64..128 cases of a worker survive a crash (the
+                            // last line is the case in flight)
+                            let mut body = serde_json::to_vec(&json!({"property": prop_id, "engine": engine, "case": &t, "observed": "journal entry: the process died while executing this case"})).unwrap_or_default();
+                            body.push(b'\n');
+                            jcount.set(jcount.get() + 1);
+                            if jcount.get() % JOURNAL_ROTATE == 0 {
+                                if let Some((d, _)) = journal.as_ref() {
+                                    let jp = journal_path(d, prop_id, w);
+                                    let _ = std::fs::rename(&jp, format!("{}.prev", jp));
+                                    if let Ok(nf) = std::fs::OpenOptions::new().create(true).write(true).truncate(true).open(&jp) {
+                                        *f = nf;
+                                    }
+                                }
+                            }
                             let _ = f.write_all(&body);
-                            let _ = f.set_len(body.len() as u64);
                         }
                         if w < 64 {
                             PHASE[w].store(1, Ordering::Relaxed);
@@ -327,6 +342,7 @@ where
                     if let Some((d, _)) = journal.as_ref() {
                         drop(jfile);
                         let _ = std::fs::remove_file(journal_path(d, prop_id, w));
+                        let _ = std::fs::remove_file(format!("{}.prev", journal_path(d, prop_id, w)));
                     }
                     (acc.into_inner(), found)
                 })
